@@ -12,7 +12,7 @@
 (* ("data": evaluated content differs, "flags": only merge flags differ,    *)
 (* "err": error class / success differs) and printed with the trace id.     *)
 (***************************************************************************)
-EXTENDS AyBuild, Props_C02, Props_C03, Props_C04, Props_C05, Props_C08, Props_C14, Props_C15, Props_C16, IOUtils, TLCExt
+EXTENDS AyBuild, Props_C01, Props_C02, Props_C03, Props_C04, Props_C05, Props_C08, Props_C14, Props_C15, Props_C16, IOUtils, TLCExt
 
 CONSTANT Prop   \* which property's declarative formula is evaluated on the logged outcomes
 
@@ -24,6 +24,8 @@ VARIABLES tid, l, verdict,
 
 tvars == <<vars, tid, l, verdict, louts, lbuilt>>
 
+RECURSIVE PlainOfJ(_)
+PlainOfJ(j) == Plain(j.k, j.v, [i \in 1..Len(j.ch) |-> <<j.ch[i][1], PlainOfJ(j.ch[i][2])>>])
 RECURSIVE NodeOfJ(_)
 NodeOfJ(j) == IF "err" \in DOMAIN j THEN j
               ELSE [j EXCEPT !.md = {<<j.md[x][1], j.md[x][2]>> : x \in DOMAIN j.md},
@@ -36,7 +38,7 @@ TInit == /\ Init
          /\ l = 1
          /\ verdict = "ok"
          /\ louts = <<>>
-         /\ lbuilt = [status |-> "none", paths |-> <<>>, calls |-> 0]
+         /\ lbuilt = [status |-> "none", paths |-> <<>>, calls |-> 0, data |-> Plain("none", NoVal, <<>>)]
 
 IsEvent(e) == l <= Len(Ev) /\ Ev[l].e = e /\ l' = l + 1
 
@@ -78,7 +80,8 @@ TBeyondFailure ==
 
 \* the library constructed the Config: status and reported paths are logged
 TConstruct == /\ IsEvent("Construct") /\ Construct
-              /\ lbuilt' = [status |-> Ev[l].status, paths |-> Ev[l].paths, calls |-> Ev[l].calls]
+              /\ lbuilt' = [status |-> Ev[l].status, paths |-> Ev[l].paths, calls |-> Ev[l].calls,
+                            data |-> IF "data" \in DOMAIN Ev[l] THEN PlainOfJ(Ev[l].data) ELSE Plain("none", NoVal, <<>>)]
               /\ verdict' = IF verdict # "ok" THEN verdict
                             ELSE IF (built'.status = "RequiredError") <=> (Ev[l].status = "RequiredError") THEN "ok" ELSE "err"
               /\ UNCHANGED <<tid, louts>>
@@ -132,6 +135,8 @@ FailingRels(base, RO(_)) ==
 \* property's stated domain
 PropVerdict ==
     CASE Prop = "C02" -> IF C02_Holds(HistDocs, louts) THEN "holds" ELSE "violated"
+      [] Prop = "C01" -> IF ~(Len(HistDocs) = 1 /\ C01_Vocabulary(HistDocs[1])) THEN "outside"
+                         ELSE IF C01_Holds(HistDocs, louts, lbuilt.data) THEN "holds" ELSE "violated"
       [] Prop = "C03" -> IF ~C03_InDomain(HistDocs) THEN "outside"
                          ELSE IF C03_Holds(HistDocs, louts) THEN "holds" ELSE "violated"
       [] Prop = "C04" -> IF ~C04_Judged(HistDocs, louts) THEN "outside"
@@ -150,6 +155,7 @@ PropVerdict ==
 \* ... and on what the SPECIFICATION computed for the same history
 ModelVerdict ==
     CASE Prop = "C02" -> IF C02_Holds(HistDocs, accs) THEN "holds" ELSE "violated"
+      [] Prop = "C01" -> IF C01_Holds(HistDocs, accs, Plain("none", NoVal, <<>>)) THEN "holds" ELSE "violated"
       [] Prop = "C03" -> IF C03_Holds(HistDocs, accs) THEN "holds" ELSE "violated"
       [] Prop = "C04" -> IF C04_Holds(HistDocs, accs) THEN "holds" ELSE "violated"
       [] Prop = "C05" -> IF C05_TraceHolds(accs, ModelRelOuts) THEN "holds" ELSE "violated"
